@@ -300,5 +300,124 @@ theorem Ad_def (g : Vec ℝ 11) (h : IsUnit g) (a : Vec ℝ 10) :
     simp only [c03e, SO3.hat, SO3.matrix, Galilei.tb, Galilei.tq, Galilei.ts,
       Galilei.tw, Galilei.gv, Galilei.gp, Galilei.gt, Galilei.gq] at h ⊢ <;> first | ring1 | grind
 
+/-! #### matrix homomorphism and right inverse (local copies of C01 facts) -/
+
+/-- `[[R, v, p], [0, 1, t], [0, 0, 1]]` -/
+noncomputable def homG (R : Mat ℝ 3 3) (v p : Vec ℝ 3) (t : ℝ) : Mat ℝ 5 5 := (.of (fun i j =>
+  if hi : i.val < 3 then
+    if hj : j.val < 3 then R ⟨i.val, hi⟩ ⟨j.val, hj⟩
+    else if j.val = 3 then v ⟨i.val, hi⟩ else p ⟨i.val, hi⟩
+  else if i.val = 3 then (if j.val = 3 then 1 else if j.val = 4 then t else 0)
+  else (if j.val = 4 then 1 else 0)))
+
+@[c03e] theorem homG_00 (R : Mat ℝ 3 3) (v p : Vec ℝ 3) (t : ℝ) : homG R v p t 0 0 = R 0 0 := by
+  simp [homG]
+@[c03e] theorem homG_01 (R : Mat ℝ 3 3) (v p : Vec ℝ 3) (t : ℝ) : homG R v p t 0 1 = R 0 1 := by
+  simp [homG]
+@[c03e] theorem homG_02 (R : Mat ℝ 3 3) (v p : Vec ℝ 3) (t : ℝ) : homG R v p t 0 2 = R 0 2 := by
+  simp [homG]
+@[c03e] theorem homG_03 (R : Mat ℝ 3 3) (v p : Vec ℝ 3) (t : ℝ) : homG R v p t 0 3 = v 0 := by
+  simp [homG]
+@[c03e] theorem homG_04 (R : Mat ℝ 3 3) (v p : Vec ℝ 3) (t : ℝ) : homG R v p t 0 4 = p 0 := by
+  simp [homG]
+@[c03e] theorem homG_10 (R : Mat ℝ 3 3) (v p : Vec ℝ 3) (t : ℝ) : homG R v p t 1 0 = R 1 0 := by
+  simp [homG]
+@[c03e] theorem homG_11 (R : Mat ℝ 3 3) (v p : Vec ℝ 3) (t : ℝ) : homG R v p t 1 1 = R 1 1 := by
+  simp [homG]
+@[c03e] theorem homG_12 (R : Mat ℝ 3 3) (v p : Vec ℝ 3) (t : ℝ) : homG R v p t 1 2 = R 1 2 := by
+  simp [homG]
+@[c03e] theorem homG_13 (R : Mat ℝ 3 3) (v p : Vec ℝ 3) (t : ℝ) : homG R v p t 1 3 = v 1 := by
+  simp [homG]
+@[c03e] theorem homG_14 (R : Mat ℝ 3 3) (v p : Vec ℝ 3) (t : ℝ) : homG R v p t 1 4 = p 1 := by
+  simp [homG]
+@[c03e] theorem homG_20 (R : Mat ℝ 3 3) (v p : Vec ℝ 3) (t : ℝ) : homG R v p t 2 0 = R 2 0 := by
+  simp [homG]
+@[c03e] theorem homG_21 (R : Mat ℝ 3 3) (v p : Vec ℝ 3) (t : ℝ) : homG R v p t 2 1 = R 2 1 := by
+  simp [homG]
+@[c03e] theorem homG_22 (R : Mat ℝ 3 3) (v p : Vec ℝ 3) (t : ℝ) : homG R v p t 2 2 = R 2 2 := by
+  simp [homG]
+@[c03e] theorem homG_23 (R : Mat ℝ 3 3) (v p : Vec ℝ 3) (t : ℝ) : homG R v p t 2 3 = v 2 := by
+  simp [homG]
+@[c03e] theorem homG_24 (R : Mat ℝ 3 3) (v p : Vec ℝ 3) (t : ℝ) : homG R v p t 2 4 = p 2 := by
+  simp [homG]
+@[c03e] theorem homG_30 (R : Mat ℝ 3 3) (v p : Vec ℝ 3) (t : ℝ) : homG R v p t 3 0 = 0 := by
+  simp [homG]
+@[c03e] theorem homG_31 (R : Mat ℝ 3 3) (v p : Vec ℝ 3) (t : ℝ) : homG R v p t 3 1 = 0 := by
+  simp [homG]
+@[c03e] theorem homG_32 (R : Mat ℝ 3 3) (v p : Vec ℝ 3) (t : ℝ) : homG R v p t 3 2 = 0 := by
+  simp [homG]
+@[c03e] theorem homG_33 (R : Mat ℝ 3 3) (v p : Vec ℝ 3) (t : ℝ) : homG R v p t 3 3 = 1 := by
+  simp [homG]
+@[c03e] theorem homG_34 (R : Mat ℝ 3 3) (v p : Vec ℝ 3) (t : ℝ) : homG R v p t 3 4 = t := by
+  simp [homG]
+@[c03e] theorem homG_40 (R : Mat ℝ 3 3) (v p : Vec ℝ 3) (t : ℝ) : homG R v p t 4 0 = 0 := by
+  simp [homG]
+@[c03e] theorem homG_41 (R : Mat ℝ 3 3) (v p : Vec ℝ 3) (t : ℝ) : homG R v p t 4 1 = 0 := by
+  simp [homG]
+@[c03e] theorem homG_42 (R : Mat ℝ 3 3) (v p : Vec ℝ 3) (t : ℝ) : homG R v p t 4 2 = 0 := by
+  simp [homG]
+@[c03e] theorem homG_43 (R : Mat ℝ 3 3) (v p : Vec ℝ 3) (t : ℝ) : homG R v p t 4 3 = 0 := by
+  simp [homG]
+@[c03e] theorem homG_44 (R : Mat ℝ 3 3) (v p : Vec ℝ 3) (t : ℝ) : homG R v p t 4 4 = 1 := by
+  simp [homG]
+
+theorem matrix_eq_homG (g : Vec ℝ 11) :
+    Galilei.matrix g = homG (SO3.matrix (Galilei.gq g)) (Galilei.gv g) (Galilei.gp g) (Galilei.gt g) := by
+  ext i j
+  fin_cases i <;> fin_cases j <;> simp only [Fin.zero_eta, Fin.mk_one, Fin.reduceFinMk, Fin.isValue, c03e]
+
+theorem homG_mul (R R' : Mat ℝ 3 3) (v p v' p' : Vec ℝ 3) (t t' : ℝ) :
+    mmul (homG R v p t) (homG R' v' p' t')
+      = homG (mmul R R') (vadd (mulVec R v') v) (.of (fun i => (mulVec R p' i + v i * t') + p i)) (t + t') := by
+  ext i j
+  fin_cases i <;> fin_cases j <;>
+    simp only [Fin.zero_eta, Fin.mk_one, Fin.reduceFinMk, Fin.isValue, c03e, mmul, mulVec, vadd] <;> ring
+
+theorem homG_ident : homG (ident 3) (vzero 3) (vzero 3) 0 = ident 5 := by
+  ext i j
+  fin_cases i <;> fin_cases j <;>
+    simp only [Fin.zero_eta, Fin.mk_one, Fin.reduceFinMk, Fin.isValue, c03e, ident, vzero, Nat.cast_zero,
+      Nat.cast_one] <;> c03_eval
+
+theorem unit_composition (a b : Vec ℝ 11) (ha : IsUnit a) (hb : IsUnit b) :
+    IsUnit (Galilei.composition a b) := by
+  unfold IsUnit Galilei.composition
+  simp only [gq_mkG]; exact so3_unit_composition _ _ ha hb
+
+theorem matrix_composition (a b : Vec ℝ 11) (ha : IsUnit a) (hb : IsUnit b) :
+    Galilei.matrix (Galilei.composition a b) = mmul (Galilei.matrix a) (Galilei.matrix b) := by
+  rw [matrix_eq_homG, matrix_eq_homG a, matrix_eq_homG b, homG_mul]
+  unfold Galilei.composition
+  simp only [gq_mkG, gv_mkG, gp_mkG, gt_mkG, memoM_eq', so3_matrix_composition _ _ ha hb]
+
+theorem matrix_right_inverse (g : Vec ℝ 11) (h : IsUnit g) :
+    ∃ N, mmul (Galilei.matrix g) N = ident 5 := by
+  have hO := so3_matrix_mul_transpose _ h
+  refine ⟨homG (transpose (SO3.matrix (Galilei.gq g)))
+    (mulVec (transpose (SO3.matrix (Galilei.gq g))) (vneg (Galilei.gv g)))
+    (mulVec (transpose (SO3.matrix (Galilei.gq g)))
+      (.of (fun i => -(Galilei.gp g i) + Galilei.gt g * Galilei.gv g i)))
+    (-(Galilei.gt g)), ?_⟩
+  rw [matrix_eq_homG, homG_mul, mulVec_mulVec, mulVec_mulVec, hO, mulVec_ident, mulVec_ident, ← homG_ident]
+  congr 1
+  · ext i; simp [vadd, vneg, vzero]
+  · ext i; simp [vzero]; ring
+  · ring
+
+theorem Ad_composition (g₁ g₂ : Vec ℝ 11) (h₁ : IsUnit g₁) (h₂ : IsUnit g₂) :
+    Galilei.Ad (Galilei.composition g₁ g₂) = mmul (Galilei.Ad g₁) (Galilei.Ad g₂) :=
+  Ad_comp_of (Galilei.model : LieModel ℝ) IsUnit vee_hat (fun g a h => Ad_def g h a)
+    unit_composition matrix_composition matrix_right_inverse g₁ g₂ h₁ h₂
+
+theorem adjointRep : AdjointRep (Galilei.model : LieModel ℝ) IsUnit InAlgebra where
+  vee_hat := vee_hat
+  hat_inAlg := hat_inAlgebra
+  hat_vee := hat_vee
+  hat_add := hat_add
+  hat_smul := hat_smul
+  Ad_def := fun g a h => Ad_def g h a
+  ad_def := ad_def
+  Ad_comp := Ad_composition
+
 end Galilei
 end C03
